@@ -12,6 +12,9 @@ An extreme-magnitude stream (gen_search_extreme) feeds logits / LM scores that a
 common offset or dominated by one entry, in float32 and float64: the oracle stays torch's stable kernel in the
 case's dtype, so exact-zero underflow is reproduced and a naive exp/sum(exp), log(softmax) or shift-free
 log-sum-exp shows up as NaN/+inf (regime N) or as a wrong mass.
+A composite-LM stream (gen_search_composite) hands CTCPrefixSearch the library's own shallow-fusion wrappers (nested, custom
+key prefixes) over finite-state test LMs in several state layouts; the model's LM is the map prefix -> fused row computed
+afresh per prefix, so a part's state that does not follow its beam slot shows up as a wrong mass (or as an exception).
 Besides: Spec.spec_okb (alignment enumeration + map-based prefix beam search) is evaluated on the
 implementation's output, and every batch element is re-run alone on its own valid frames.
 """
@@ -630,13 +633,15 @@ def _comp_final_rows(case, n, prefixes):
 
 
 def _comp_lm_term(case, n):
-    """Gallina function prefix -> row, a finite map over every prefix the element can ever hold"""
-    L = case["T"] if n is None else _len_of(case, n)
+    """Gallina function prefix -> row: a finite map over every prefix the element can hold at the START of one of its
+    own frames (length <= len - 1: frame t extends prefixes of length <= t; the rows asked for in frozen frames never
+    reach an output); anything else gets a row of zeros"""
+    L = max(0, (case["T"] if n is None else _len_of(case, n)) - 1)
     prefixes = _comp_prefixes(case["V"], L)
     rows = _comp_final_rows(case, n, prefixes)
     tab = cl([f"({cln(p)}, {clq(r)})" for p, r in zip(prefixes, rows)])
     return (f"(fun p : list nat => match List.find (fun e : list nat * list Qc => list_nat_eqb (fst e) p) {tab} "
-            f"with Some e => snd e | None => [] end)")
+            f"with Some e => snd e | None => List.repeat (qc 0 1) {cn(case['V'])} end)")
 
 
 def _comp_init(node, pre, dtype, out):
@@ -1635,7 +1640,7 @@ def gen_cases(chk):
             N = rng.choice([2, 3])
             c["batch"] = [N, rng.randrange(N)]
     # composite fused language models (drawn last: the streams above keep their draws)
-    for i in range(2000 if thorough else 130):
+    for i in range(1800 if thorough else 110):
         c = gen_search_composite(rng)
         c["stream"] = "search-composite-lm"
         cases.append(c)
@@ -1661,7 +1666,13 @@ def run(chk, cases=None):
         "logits and lens / int32 lens / a module object used before (relation: same positive-mass prefixes and masses as the "
         "plain call; arguments must not be overwritten). search-second-frame stream: empty prefix and one-token prefixes with "
         "non-zero tokens alive after frame 0. About half of the step cases pass non-contiguous views, one tensor object for "
-        "y_prev_last and y_prev_lens, keyword arguments, float32, or sit inside a batch of 2-3 (same model term)")
+        "y_prev_last and y_prev_lens, keyword arguments, float32, or sit inside a batch of 2-3 (same model term). "
+        "search-composite-lm stream: the fused model is the library's MixableShallowFusionLanguageModel(first, second, beta2), "
+        "also nested on either side and with custom key prefixes, over finite-state test LMs whose state dicts have five "
+        "different layouts / key names / sizes (or all the same: 'twin' regime), a stateless leaf, the library's bigram "
+        "LookupLanguageModel; inner betas 0 / positive / negative, explicit initial state for all / some / no leaves, ragged "
+        "batches with empty elements; the model's LM is the finite map prefix -> fused row computed afresh for every prefix "
+        "from the leaves' definitions (no state, no extract_by_src, no mix_by_mask)")
     chk.assumptions += [
         "torch.softmax / log_softmax / exp results (float64) are handed to the model as exact rationals (regime T); "
         "float rounding of the remaining + and * is absorbed by the 1e-9 tolerance",
@@ -1681,7 +1692,8 @@ def run(chk, cases=None):
         "the theorems hold for every admissible answer and c05_admissible_choices_exist shows one always exists",
         "C05: IEEE rounding is not modelled; NaN / +inf are policed on every output (regime N), -inf is modelled (mass = NegInf | Fin q)",
         "C05: the language model is a function prefix -> row in the model; the code's state plumbing (extract_by_src, mix_by_mask) "
-        "is only covered by the correspondence with a stateful hash LM",
+        "is only covered by the correspondence with a stateful hash LM and with composites (library shallow-fusion wrappers, "
+        "nested) of finite-state test LMs in several state layouts, whose rows the oracle recomputes per prefix from scratch",
     ]
     replaying = cases is not None
     cases = cases if cases is not None else gen_cases(chk)
@@ -1730,7 +1742,9 @@ def run(chk, cases=None):
                 chk.count("failing:direct:stream=%s" % stream)
             chk.count("search:via=%s" % c.get("via", "plain"))
             situation_counts(chk, c, out)
-            for t in spec_terms(c, out, limit=spec_limit):
+            # composite-LM cases are all fused and multi-frame: the spec is evaluated up front on the cheaper ones only
+            # (judge() evaluates it anyway, with a larger limit, on every case whose output the model rejects)
+            for t in spec_terms(c, out, limit=(spec_limit if stream != "search-composite-lm" else min(spec_limit, 4 ** 3))):
                 if t is not None:
                     sterms.append(t)
                     sowner.append(i)
